@@ -93,6 +93,18 @@ func (c *Converter) ExpandUpdate(ctx context.Context, upd *sdcpb.Update, include
 		if err != nil {
 			return nil, err
 		}
+		// the value may have completed the keys of the last element of the path: the key leafs
+		// expanded from that element name the entry by all of its keys as well
+		if n := len(upd.GetPath().GetElem()); n > 0 {
+			for _, keyUpd := range upds {
+				if len(keyUpd.GetPath().GetElem()) != n+1 {
+					continue
+				}
+				if entry := keyUpd.GetPath().GetElem()[n-1]; entry != nil {
+					entry.Key = upd.GetPath().GetElem()[n-1].GetKey()
+				}
+			}
+		}
 		upds := append(upds, rs...)
 		return upds, nil
 	case *sdcpb.SchemaElem_Field:
